@@ -134,7 +134,7 @@ Lemma AddCoin_escrow tl : Coins_AddCoin [] tl = Ok (escrow_holdings tl).
 Proof. reflexivity. Qed.
 
 (* the three per-entry checks InitGenesis makes through the keeper (each failure is a panic(err)) *)
-Definition wl_okb (a : addr) : bool := negb (a =? BAD_ADDR).
+Definition wl_okb (a : addr) : bool := addr_parses a.
 Definition po_okb (g : go_EnterpriseUndPurchaseOrder) : bool :=
   (1 <=? EnterpriseUndPurchaseOrder_Status g) && (EnterpriseUndPurchaseOrder_Status g <=? 4).
 Definition locked_okb (l : go_LockedUnd) : bool := negb (snd (LockedUnd_Amount l) <? 0).
@@ -142,7 +142,7 @@ Definition doc_okb (g : go_GenesisState) : bool :=
   forallb wl_okb (GenesisState_Whitelist g) && forallb po_okb (GenesisState_PurchaseOrders g)
   && forallb locked_okb (GenesisState_LockedUnd g).
 
-Definition wl_ok (a : addr) : Prop := a <> BAD_ADDR.
+Definition wl_ok (a : addr) : Prop := a <> BAD_ADDR /\ a <> EMPTY_ADDR.
 Definition po_status_ok (g : go_EnterpriseUndPurchaseOrder) : Prop := 1 <= EnterpriseUndPurchaseOrder_Status g <= 4.
 Definition locked_ok (l : go_LockedUnd) : Prop := 0 <= snd (LockedUnd_Amount l).
 
@@ -152,7 +152,7 @@ Lemma doc_okb_spec g :
   Forall locked_ok (GenesisState_LockedUnd g).
 Proof.
   unfold doc_okb. rewrite !andb_true_iff, !forallb_forall, !Forall_forall.
-  unfold wl_okb, po_okb, locked_okb, wl_ok, po_status_ok, locked_ok.
+  unfold wl_okb, addr_parses, po_okb, locked_okb, wl_ok, po_status_ok, locked_ok.
   split.
   - intros [[H1 H2] H3]. split; [|split]; intros x Hx.
     + specialize (H1 x Hx). lia.
@@ -212,6 +212,7 @@ Ltac gwalk := repeat gstep.
 (* a loop body: the tests it makes are comparisons of integers; both sides are split on each of them *)
 Ltac gsplit :=
   match goal with
+  | |- context [if addr_parses ?a then _ else _] => destruct (addr_parses a)
   | |- context [if ?a =? ?b then _ else _] => destruct (a =? b)
   | |- context [if ?a <? ?b then _ else _] => destruct (a <? b)
   | |- context [if negb (?a =? ?b) then _ else _] => destruct (a =? b)
